@@ -18,7 +18,7 @@ ID = 'C16'
 TITLE = 'Wildcard namespace constraints behave as sets of allowed names'
 RULE = ('every ordered pair (c1, c2) of namespace constraints over {##any, ##other, subsets of {##local, '
         '##targetNamespace, N1, N2}} (+ notNamespace subsets x notQName subsets in 1.1) x operation '
-        '{admits-elem, admits-attr, union (extension), intersection (attribute groups), restriction-attr, '
+        '{admits-elem, admits-attr, union (extension; also with the base or the derived wildcard taken from a referenced attribute group, every other user of the group re-checked), intersection (attribute groups), restriction-attr, '
         'restriction-elem, overlap (choice UPA + is_overlap())} x 10 name classes; a case is non-trivial when '
         'its (version, op, denotation(c1), denotation(c2)) signature is new; distinct = distinct (version, op, c1, c2)')
 ASSUMPTIONS = [
@@ -35,12 +35,14 @@ HEAD = ('<xs:schema xmlns:xs="http://www.w3.org/2001/XMLSchema" targetNamespace=
 TAIL = '</xs:schema>'
 XMLNS = 'xmlns:t="urn:t" xmlns:n1="urn:n1" xmlns:n2="urn:n2" xmlns:f="urn:f"'
 PFX = {'T': 't:', 'N1': 'n1:', 'N2': 'n2:', 'F': 'f:', 'L': ''}
-OPS = ('admits', 'union', 'inter', 'inter-local', 'restr-attr', 'restr-elem', 'overlap')
+OPS = ('admits', 'union', 'union-group', 'inter', 'inter-local', 'restr-attr', 'restr-elem', 'overlap')
 PC = 'processContents="skip"'
 
 
 def notq_pool(tier):
-    return ('T:a', 'D') if tier == 'quick' else ('T:a', 'N1:a', 'D')
+    # the same pool in both tiers: with only (T:a, ##defined) every specific name is also a declared one, and a
+    # notQName set shared between a wildcard and its copy (operand aliasing) is invisible
+    return ('T:a', 'N1:a', 'D')
 
 
 def qn(name):
@@ -90,6 +92,23 @@ def body_union(c1, c2, i=''):
             '</xs:extension></xs:complexContent></xs:complexType>\n<xs:element name="e%s" type="t:D%s"/>\n'
             '<xs:element name="x%s" type="t:B%s"/>\n'
             % (i, render(c1), PC, i, i, render(c2), PC, i, i, i, i))
+
+
+def body_union_group(c1, c2):
+    """Extension whose base (e1) or whose own (e2) attribute wildcard comes from a referenced global attribute group."""
+    return ('<xs:attributeGroup name="g"><xs:anyAttribute %s %s/></xs:attributeGroup>\n'
+            '<xs:attributeGroup name="h"><xs:anyAttribute %s %s/></xs:attributeGroup>\n'
+            '<xs:complexType name="B1"><xs:attributeGroup ref="t:g"/></xs:complexType>\n'
+            '<xs:complexType name="D1"><xs:complexContent><xs:extension base="t:B1"><xs:anyAttribute %s %s/>'
+            '</xs:extension></xs:complexContent></xs:complexType>\n'
+            '<xs:complexType name="B2"><xs:anyAttribute %s %s/></xs:complexType>\n'
+            '<xs:complexType name="D2"><xs:complexContent><xs:extension base="t:B2"><xs:attributeGroup ref="t:h"/>'
+            '</xs:extension></xs:complexContent></xs:complexType>\n'
+            '<xs:element name="e1" type="t:D1"/>\n<xs:element name="x1" type="t:B1"/>\n'
+            '<xs:element name="e2" type="t:D2"/>\n<xs:element name="x2" type="t:B2"/>\n'
+            '<xs:element name="zg"><xs:complexType><xs:attributeGroup ref="t:g"/></xs:complexType></xs:element>\n'
+            '<xs:element name="zh"><xs:complexType><xs:attributeGroup ref="t:h"/></xs:complexType></xs:element>\n'
+            % (render(c1), PC, render(c2), PC, render(c2), PC, render(c1), PC))
 
 
 def body_inter(c1, c2, i=''):
@@ -210,6 +229,32 @@ def run_case(version, op, c1, c2):
                 disc('operand-%s|extra=%s|missing=%s' % (elem, fmt(own - s_own), fmt(s_own - own)),
                      'after the %s with %s the operand wildcard %s itself admits {%s}; its set is {%s}'
                      % (op, render(c2 if elem == 'x' else c1), render(c), fmt(own), fmt(s_own)))
+        return discs, info
+
+    if op == 'union-group':
+        schema, err = build(version, body_union_group(c1, c2))
+        info['built'] += 1
+        if schema is None:
+            if version == '1.0' and 'not expressible' in err:
+                info['skipped'] = 'union not expressible in XSD 1.0'
+            else:
+                disc('refused', 'union (through attribute groups) of %s and %s refused: %s' % (render(c1), render(c2), err))
+            return discs, info
+        judged = set(UNIVERSE)
+        if ('D' in c1[2]) != ('D' in c2[2]):
+            judged -= wild.DECLARED
+        for elem, exp, what in (('e1', s1 | s2, 'extension of a base whose wildcard comes from group g'),
+                                ('e2', s1 | s2, 'extension whose own wildcard comes from group h'),
+                                ('x1', s1, 'the base type using group g'), ('x2', s1, 'the base type with its own wildcard'),
+                                ('zg', s1, 'another user of group g'), ('zh', s2, 'another user of group h')):
+            got = observed_set(schema, elem, 'attr')
+            info['validated'] += len(UNIVERSE)
+            jd = judged if elem in ('e1', 'e2') else set(UNIVERSE)
+            info['judged'] += len(jd)
+            if got & jd != exp & jd:
+                disc('%s|extra=%s|missing=%s' % (elem, fmt((got - exp) & jd), fmt((exp - got) & jd)),
+                     'base wildcard %s, extension wildcard %s: %s admits {%s}; sets give {%s}'
+                     % (render(c1), render(c2), what, fmt(got), fmt(exp)))
         return discs, info
 
     if op in ('restr-attr', 'restr-elem'):
